@@ -226,6 +226,9 @@ def encode(input, errors="strict", encoding=None):
     consumed = len(input)
     if encoding is None:
         encoding = detectencoding_unicode(input, True)[0]
+        if encoding is None:
+            # unterminated charset rule: default to UTF-8 like detectencoding_str() does
+            encoding = "utf-8"
         if encoding.replace("_", "-").lower() == "utf-8-sig":
             input = _fixencoding(input, "utf-8", True)
     else:
@@ -383,6 +386,9 @@ if hasattr(codecs, "IncrementalEncoder"):
                 else:
                     # Use encoding from the @charset declaration
                     self.encoding = detectencoding_unicode(input, final)[0]
+                    if self.encoding is None and final:
+                        # unterminated charset rule and no more data: default to UTF-8
+                        self.encoding = "utf-8"
                 if self.encoding is not None:
                     if self.encoding == "css":
                         raise ValueError("css not allowed as encoding name")
